@@ -1377,6 +1377,7 @@ fn quick_qtypes(spec: &ZoneSpec) -> Vec<u16> {
 fn main() {
     // a stack overflow / abort in the code under test must become a verdict, not a dead check
     vcore::supervise("C09");
+    vcore::install_log_evaluation(); // logging is part of the environment: log arguments are evaluated as under a real subscriber
     let ctx = Ctx::from_args("C09", "exploration");
     let thorough = !ctx.quick();
 
